@@ -1,5 +1,4 @@
 import DFV.Lemmas.C05Iter
-import DFV.Lemmas.Rot
 /-! helper lemmas for `Field.rotate90(ax1, ax2, k)` with any integer `k` (C05, code-shaped model
 `rot90FldK`): by residue of `k` modulo 4 the turned region / mesh is the original (even `k`) or
 the quarter-turned one (odd `k`, the plane named either way round), `np.rot90(A, k)` and the
